@@ -82,6 +82,7 @@ fn main() {
         replay_case = v["case_id"].as_str().map(|s| s.to_string());
     }
     mon::install_panic_hook();
+    sched::install_pause_hook();
     let known = std::sync::Arc::new(mon::KnownSet::load(&root, &prop));
     let ctx = Ctx {
         known,
